@@ -136,3 +136,56 @@ func jsonFamilies() []jsonFamily {
 		{"gmp/UnmarshalAcknowledgement/json", []jsonField{{"result", `"AQ=="`, nil}}, id},
 	}
 }
+
+// jsonTokens is the token alphabet of the JSON-token enumeration: every JSON literal / scalar and
+// the structural characters, so that every scalar document (`null`, `true`, `0`, `""` ...) and every
+// small malformed or well-formed composite is a whole input of every JSON-decoding target.
+var jsonTokens = []string{"null", "true", "false", "0", "-1", "1e999", `""`, `"a"`, "{", "}", "[", "]", ":", ",", " ", "\n"}
+
+// jsonTargets maps decoder names to the wrappers their token sequences are fed in.
+func jsonTargets() map[string][]string {
+	raw := []string{"%s"}
+	return map[string][]string{
+		"transfer/UnmarshalPacketData/default":               append([]string{`{"denom":%s,"amount":"1","sender":"s","receiver":"r"}`, `{"denom":"a","amount":%s,"sender":"s","receiver":"r"}`, `{"denom":"a","amount":"1","sender":%s,"receiver":"r"}`, `{"denom":"a","amount":"1","sender":"s","receiver":%s}`, `{"denom":"a","amount":"1","sender":"s","receiver":"r","memo":%s}`}, raw...),
+		"transfer/UnmarshalPacketData/json":                  append([]string{`{"denom":%s,"amount":"1","sender":"s","receiver":"r"}`, `{"denom":"a","amount":"1","sender":"s","receiver":"r","memo":%s}`}, raw...),
+		"transfer/FungibleTokenPacketData/proto+json-direct": raw,
+		"gmp/UnmarshalPacketData/json":                       append([]string{`{"sender":%s}`, `{"sender":"s","salt":%s}`, `{"sender":"s","payload":%s}`, `{"sender":"s","memo":%s}`}, raw...),
+		"gmp/UnmarshalAcknowledgement/json":                  append([]string{`{"result":%s}`}, raw...),
+		"ica/MetadataFromVersion":                            append([]string{`{"version":%s}`, `{"version":"ics27-1","controller_connection_id":%s}`, `{"version":"ics27-1","address":%s}`, `{"version":"ics27-1","encoding":%s}`, `{"version":"ics27-1","tx_type":%s}`}, raw...),
+		"ica/InterchainAccountPacketData.UnmarshalJSON":      append([]string{`{"type":%s,"data":"AQ=="}`, `{"type":"TYPE_EXECUTE_TX","data":%s}`, `{"type":"TYPE_EXECUTE_TX","data":"AQ==","memo":%s}`}, raw...),
+		"ica/DeserializeCosmosTx/proto3json":                 append([]string{`{"messages":%s}`, `{"messages":[%s]}`, `{"messages":[{"@type":%s}]}`}, raw...),
+		"04-channel/Acknowledgement/json":                    append([]string{`{"result":%s}`, `{"error":%s}`, `{"result":"AQ==","error":%s}`}, raw...),
+		"memo/forward+callbacks": append([]string{`{"forward":%s}`,
+			`{"forward":{"receiver":%s,"port":"transfer","channel":"channel-0"}}`,
+			`{"forward":{"receiver":"r","port":%s,"channel":"channel-0"}}`,
+			`{"forward":{"receiver":"r","port":"transfer","channel":%s}}`,
+			`{"forward":{"receiver":"r","port":"transfer","channel":"channel-0","timeout":%s}}`,
+			`{"forward":{"receiver":"r","port":"transfer","channel":"channel-0","retries":%s}}`,
+			`{"forward":{"receiver":"r","port":"transfer","channel":"channel-0","next":%s}}`,
+			`{"forward":{"receiver":"r","port":"transfer","channel":"channel-0","next":{"forward":%s}}}`,
+			`{"src_callback":%s}`, `{"dest_callback":%s}`,
+			`{"src_callback":{"address":%s}}`, `{"dest_callback":{"address":"a","gas_limit":%s}}`, `{"dest_callback":{"address":"a","calldata":%s}}`}, raw...),
+	}
+}
+
+// tokenSequences calls emit with the concatenation of every sequence of 1..max tokens (and the empty one).
+func tokenSequences(max int, emit func(s string) bool) {
+	toks := jsonTokens
+	var rec func(prefix string, n int) bool
+	rec = func(prefix string, n int) bool {
+		if n == 0 {
+			return emit(prefix)
+		}
+		for _, t := range toks {
+			if !rec(prefix+t, n-1) {
+				return false
+			}
+		}
+		return true
+	}
+	for l := 0; l <= max; l++ {
+		if !rec("", l) {
+			return
+		}
+	}
+}
